@@ -77,6 +77,11 @@ def points(tree):
             a = getattr(node, f, None)
             if a is not None:
                 in_ann.update(id(n) for n in ast.walk(a))
+    # progress-bar plumbing (keyword arguments of tqdm(...), print(..., file=sys.stderr) messages) is not behaviour
+    for node in ast.walk(tree):
+        if isinstance(node, ast.Call) and isinstance(node.func, ast.Name) and node.func.id == "tqdm":
+            for kw in node.keywords:
+                in_ann.update(id(n) for n in ast.walk(kw.value))
     for i, node in enumerate(ast.walk(tree)):
         if id(node) in in_ann:
             continue
